@@ -393,6 +393,9 @@ type model struct {
 	// (a '*' callback that another registration names as anchor is sorted early). Everything else about
 	// such a history - membership, handlers, every named constraint, the other '*' callbacks - is judged.
 	waive map[string]bool
+	// loose: a history of the listed class `forward-reference` - the order is not judged at all (the sorter
+	// rewrites the constraints of such histories), but membership, handlers and the built-in order are
+	loose bool
 }
 
 func newModel(pipeline string) *model {
@@ -414,7 +417,7 @@ func (m *model) signature() string {
 }
 
 func (m *model) clone() *model {
-	c := &model{pipeline: m.pipeline, live: map[string]*reg{}, gen: map[string]int{}, waive: m.waive}
+	c := &model{pipeline: m.pipeline, live: map[string]*reg{}, gen: map[string]int{}, waive: m.waive, loose: m.loose}
 	for n, r := range m.live {
 		x := *r
 		x.extra = append([][2]string(nil), r.extra...)
@@ -691,6 +694,9 @@ func checkCase(c Case) string {
 	if harness.OpenClass("C17", "star-as-anchor") && !strict {
 		m.waive = anchoredStars(c)
 	}
+	if harness.OpenClass("C17", "forward-reference") && !strict && forwardRef(c) {
+		m.loose = true
+	}
 	var cands []*model // after a rejected call: the readings "it took effect" / "it did not"
 	for i, r := range res {
 		if r.err != nil {
@@ -754,12 +760,12 @@ func checkCase(c Case) string {
 			prev = res[i-1].fired
 		}
 		m.step(c.Ops[i])
-		if r.during != nil {
+		if r.during != nil && !m.loose {
 			if msg := checkDuring(old, m, prev, r.fired, r.during); msg != "" {
 				return fmt.Sprintf("step %d (%s), the run in which the call was made: %s; that run fired: %s", i+1, c.Ops[i], msg, names(r.during))
 			}
 		}
-		if err := m.check(r.fired); err != nil {
+		if err := m.checkWith(r.fired, !m.loose); err != nil {
 			return fmt.Sprintf("after step %d (%s): %v; fired order: %s", i+1, c.Ops[i], err, names(r.fired))
 		}
 		for k, other := range r.firedOther {
@@ -791,7 +797,7 @@ func checkCase(c Case) string {
 		wm.step(o)
 		without.Ops = append(without.Ops, o)
 	}
-	if hasReplace && !constrainedReplace && cands == nil {
+	if hasReplace && !constrainedReplace && cands == nil && !m.loose {
 		wres := apply(without)
 		if len(without.Ops) == 0 {
 			// compare with the untouched built-in order
@@ -800,7 +806,17 @@ func checkCase(c Case) string {
 				return fmt.Sprintf("Replace moved a callback: order %s, want %s", got, want)
 			}
 		} else if noError(wres) {
-			got, want := names(res[len(res)-1].fired), names(wres[len(wres)-1].fired)
+			// where an anchored '*' callback lands is not asserted (model.waive): it is left out on both sides
+			keep := func(f []fired) []fired {
+				var out []fired
+				for _, x := range f {
+					if !m.waive[x.name] {
+						out = append(out, x)
+					}
+				}
+				return out
+			}
+			got, want := names(keep(res[len(res)-1].fired)), names(keep(wres[len(wres)-1].fired))
 			if got != want {
 				return fmt.Sprintf("Replace did not keep the replaced callback's position: order %s, without the Replace calls %s", got, want)
 			}
@@ -1060,8 +1076,8 @@ func runCase(t interface{ Fatalf(string, ...interface{}) }, c Case, test string)
 		return
 	}
 	if harness.OpenClass("C17", "forward-reference") && forwardRef(c) {
-		evid.Excluded("forward-reference")
-		return
+		// not dropped: judged for membership, handlers and built-in order only (see model.loose)
+		evid.Class("known:forward-reference (order not asserted)")
 	}
 	if harness.OpenClass("C17", "replace-between-stars") && replaceBetweenStars(c) {
 		evid.Excluded("replace-between-stars")
